@@ -511,6 +511,10 @@ def _check_part_files(part, what, files, dirs, labels, implied=(), more_absent=(
     absent = ["no-such-file", "no such/file"] + list(more_absent)
     for name in [n for n, _ in files[:2]] + (list(dirs[-2:]) if len(files) < 2 else []):
         absent += [name + "x", name[:-1], name + "/x", name.swapcase(), name + " ", name + "\t", name.strip()]
+    for name, _ in files[:4]:
+        # every proper tail of a packed path is a different (absent) name: usr/bin/x is not bin/x or x
+        parts = name.split("/")
+        absent += ["/".join(parts[k:]) for k in range(1, len(parts))]
     for name in absent:
         if name in present or not _valid_filename(name):
             continue
@@ -1152,7 +1156,10 @@ def enum_matrix(modes):
                                      files=_FIXED_FILES + [["été/漢 \U0001d4b3", "data"], ["etc/conf ", "name ends in a blank"],
                                                            ["etc/conf", "the same without the blank"],
                                                            ["etc/dir\t/ tab\t", "tabs and a blank in front"],
-                                                           [".config/.rc", "names that start with a dot"]])
+                                                           [".config/.rc", "names that start with a dot"],
+                                                           # one path is the tail of another: a name is the whole path
+                                                           ["a b", "the short one"], ["x", "a top-level file called like a deeper one"],
+                                                           ["doc/x/a b", "a middle one"]])
                             yield c
     return gen
 
